@@ -81,7 +81,7 @@ CLAIMS.update({
 CLAIMS['C02']['text'] += " In addition an explicit-state search (X2, iterative deepening with canonical-digest de-duplication, see C16) over the real client sending on two streams against a scripted peer (reserve / send / end / reset / poll_capacity, peer WINDOW_UPDATEs, SETTINGS window 0/65535 up and down, connection polls with open, budgeted (tail reclaimed from the codec) and blocked writes) runs the same accountant as an invariant in every state."
 CLAIMS.update({
  'C16': dict(
-   text="Explicit-state breadth-first search (X2; a state = the event history, re-executed on the real client; de-duplicated by a canonical digest of the scrubbed Debug text of the connection + stream-store snapshot hook + bytes in flight + monitor state as remaining credit) over two competing streams: reserve_capacity {0,7,10^6 (+1,16384)}, send_data {0,7,70000 (+1,16384)}, end, reset, drop, poll_capacity; peer WINDOW_UPDATE on connection / stream, SETTINGS INITIAL_WINDOW_SIZE {0,65535 (+1,7)}, RST_STREAM; connection polls with open / budgeted / blocked writes; configurations default and (stream window 7, max_send_buffer_size 16). Iterative deepening, only completed depths are claimed (quick 4-5, thorough deeper). Invariants in every state and an epilogue from every new state (usable capacity, free capacity reaches waiters, no unwoken capacity waiter).",
+   text="Explicit-state breadth-first search (X2; a state = the event history, re-executed on the real client; de-duplicated by a canonical digest of the scrubbed Debug text of the connection + stream-store snapshot hook + bytes in flight + monitor state as remaining credit) over two competing streams: reserve_capacity {0,7,10^6 (+1,16384)}, send_data {0,7,70000 (+1,16384)}, end, reset, drop, poll_capacity; peer WINDOW_UPDATE on connection / stream, SETTINGS INITIAL_WINDOW_SIZE {0,65535 (+1,7)}, RST_STREAM; connection polls with open / budgeted / blocked writes; configurations default and (stream window 7, max_send_buffer_size 16). Iterative deepening, only completed depths are claimed (quick 4, thorough deeper). Invariants in every state and an epilogue from every new state (usable capacity, free capacity reaches waiters, no unwoken capacity waiter).",
    note="Trusted: wire accountant; digest completeness (Debug text + snapshot hook; cross-checked by running without de-duplication at a smaller depth in the thorough tier).",
    tech="explicit-state BFS over the real implementation with canonical state hashing; invariants on every state, epilogue oracle from every new state",
    design="3/C16"),
@@ -89,7 +89,7 @@ CLAIMS.update({
 
 CLAIMS.update({
  'C03': dict(
-   text="Explicit-state breadth-first search (X2, canonical-digest de-duplication, iterative deepening; quick reaches depth 7-8, ~0.5-3 M executions) over the real server receiving on up to 3 streams from a scripted peer that stays inside the windows it sees: DATA plain / padded / END_STREAM, RST_STREAM, SETTINGS-ACK timing; application poll_data (holding what it read), release all / one octet, drop RecvStream, drop all handles, send_reset, respond, set_target_window_size up/down, set_initial_window_size up/down. Invariant in every state from the wire alone: peer-view windows never above the largest configured size (nor 2^31-1), no octet credited twice. Threshold-agnostic epilogue from every new state: release everything, let the peer use up the whole connection window through a fresh stream while the application reads without releasing, release all at once, quiesce - connection window back at its target and the carrier stream at the acknowledged initial window.",
+   text="Explicit-state breadth-first search (X2, canonical-digest de-duplication, iterative deepening; quick: depth 7, ~1 M executions) over the real server receiving on up to 3 streams from a scripted peer that stays inside the windows it sees: DATA plain / padded / END_STREAM, RST_STREAM, SETTINGS-ACK timing; application poll_data (holding what it read), release all / one octet, drop RecvStream, drop all handles, send_reset, respond, set_target_window_size up/down, set_initial_window_size up/down. Invariant in every state from the wire alone: peer-view windows never above the largest configured size (nor 2^31-1), no octet credited twice. Threshold-agnostic epilogue from every new state: release everything, let the peer use up the whole connection window through a fresh stream while the application reads without releasing, release all at once, quiesce - connection window back at its target and the carrier stream at the acknowledged initial window.",
    note="Scope: for a stream whose RecvStream was dropped while the stream stays open only the connection window is required to return; unreleased octets held when the RecvStream is dropped are returned by dropping the remaining handles.",
    tech="explicit-state BFS over the real implementation with canonical state hashing; wire-level window accountant as invariant, exhaust-and-release epilogue from every new state",
    design="3/C03"),
@@ -115,7 +115,7 @@ CLAIMS.update({
    tech="explicit-state BFS over the real implementation with canonical state hashing; resource-bound invariants read through a snapshot hook; directed long runs",
    design="3/C18"),
  'C19': dict(
-   text="Explicit-state breadth-first search (X2) over the real client (2-3 streams, two SendRequest clones; reset memory 'never expires' and 'expires at once'): request with / without body, END_STREAM, peer response (with / without END_STREAM), peer DATA END_STREAM, peer RST_STREAM, poll the response, read, client reset, drop of ResponseFuture / SendStream / RecvStream / a SendRequest clone in every order relative to connection polls, time passing (quick: depth 8, 1.2 M executions). Epilogue from every new state: both sides finish every stream, every stream handle is dropped, quiescence - then the snapshot hook must show no stream record beyond <= 2 remembered local resets (none once expired), both counters 0, empty buffers, no in-flight octets, the whole connection send window unassigned; then the last SendRequest is dropped and the connection must have been woken, send GOAWAY(NO_ERROR), shut the transport down and return Ok(()). Panics ('dangling store key', drop assertions) are violations. A third model starts from an exchange complete on the wire but unread; the client's stream window is 6 so that releasing a body crosses the WINDOW_UPDATE threshold.",
+   text="Explicit-state breadth-first search (X2) over the real client (2-3 streams, two SendRequest clones; reset memory 'never expires' and 'expires at once'): request with / without body, END_STREAM, peer response (with / without END_STREAM), peer DATA END_STREAM, peer RST_STREAM, poll the response, read, client reset, drop of ResponseFuture / SendStream / RecvStream / a SendRequest clone in every order relative to connection polls, time passing (quick: depth 7, 1.2 M executions). Epilogue from every new state: both sides finish every stream, every stream handle is dropped, quiescence - then the snapshot hook must show no stream record beyond <= 2 remembered local resets (none once expired), both counters 0, empty buffers, no in-flight octets, the whole connection send window unassigned; then the last SendRequest is dropped and the connection must have been woken, send GOAWAY(NO_ERROR), shut the transport down and return Ok(()). Panics ('dangling store key', drop assertions) are violations. A third model starts from an exchange complete on the wire but unread; the client's stream window is 6 so that releasing a body crosses the WINDOW_UPDATE threshold.",
    note="Server-side release of records is covered by C18 / C05 models; this model is client-side because the idle-close clause is.",
    tech="explicit-state BFS over the real implementation with canonical state hashing; leak oracle read through a snapshot hook from every new state",
    design="3/C19"),
@@ -123,7 +123,7 @@ CLAIMS.update({
 
 CLAIMS.update({
  'C15': dict(
-   text="Explicit-state breadth-first search (X2) over the real endpoints against a scripted peer, both roles. Server with two accepted streams: graceful_shutdown, abrupt_shutdown(code), respond, push_request, handle drops; the peer opens further streams racing the GOAWAY, acknowledges the shutdown PING early or late, finishes its requests, sends its own GOAWAY (quick: depth 8). Invariants in every state: last-stream-ids of emitted GOAWAYs never increase and are never below a stream already returned by accept(); after GOAWAY(L) peer streams above L are neither surfaced nor answered; push_request fails once the peer's GOAWAY was processed. Epilogue from every new state: graceful shutdown = GOAWAY(2^31-1), PING, after the ACK GOAWAY(last processed), every accepted stream answered, transport shut down, Ok(()). Client with two requests in flight: up to two peer GOAWAYs (last-stream-id 0/1/3/5/2^31-1, codes 0/2/0xdeadbeef, with/without debug data, never increasing), responses, EOF, new requests, poll_ready, response polls. Invariants: no send_request / poll_ready success and no new HEADERS once the GOAWAY was processed; streams above L fail with origin remote / kind GOAWAY / the peer's code and debug data. Epilogue: streams <= L complete when answered, nothing stays pending, the connection result carries the peer's code and debug data. Second half, deviation-bounded exploration (X1) of real client <-> real server: the server application requests graceful / abrupt shutdown after its n-th accept while further requests race the GOAWAY (three at once, parked, small windows, late readers, requests starting late); every execution with <= 2 (thorough 3) deviations in schedule / partial I/O / spurious Pending; the same rules judged from the wire and both API logs.",
+   text="Explicit-state breadth-first search (X2) over the real endpoints against a scripted peer, both roles. Server with two accepted streams: graceful_shutdown, abrupt_shutdown(code), respond, push_request, handle drops; the peer opens further streams racing the GOAWAY, acknowledges the shutdown PING early or late, finishes its requests, sends its own GOAWAY (quick: depths 6-8 per model). Invariants in every state: last-stream-ids of emitted GOAWAYs never increase and are never below a stream already returned by accept(); after GOAWAY(L) peer streams above L are neither surfaced nor answered; push_request fails once the peer's GOAWAY was processed. Epilogue from every new state: graceful shutdown = GOAWAY(2^31-1), PING, after the ACK GOAWAY(last processed), every accepted stream answered, transport shut down, Ok(()). Client with two requests in flight: up to two peer GOAWAYs (last-stream-id 0/1/3/5/2^31-1, codes 0/2/0xdeadbeef, with/without debug data, never increasing), responses, EOF, new requests, poll_ready, response polls. Invariants: no send_request / poll_ready success and no new HEADERS once the GOAWAY was processed; streams above L fail with origin remote / kind GOAWAY / the peer's code and debug data. Epilogue: streams <= L complete when answered, nothing stays pending, the connection result carries the peer's code and debug data. Second half, deviation-bounded exploration (X1) of real client <-> real server: the server application requests graceful / abrupt shutdown after its n-th accept while further requests race the GOAWAY (three at once, parked, small windows, late readers, requests starting late); every execution with <= 2 (thorough 3) deviations in schedule / partial I/O / spurious Pending; the same rules judged from the wire and both API logs.",
    note="The reaction to a peer that raises its last-stream-id is unspecified and not part of the alphabet. Byte-level chunking of GOAWAY frames is covered by C09/C12, not here.",
    tech="explicit-state BFS over the real implementation with canonical state hashing, both roles against a scripted peer, epilogue from every new state; plus stateless deviation-bounded schedule exploration of client <-> server",
    design="3/C15"),
@@ -164,6 +164,10 @@ CLAIMS['C07']['text'] += " Scenarios include push, graceful and abrupt shutdown,
 CLAIMS['C20']['text'] += " (3) X4 idle-close models (threads-idle, threads-idle-mid): one SendRequest, up to two body-less requests answered completely by the peer; polling, reading and dropping of ResponseFuture / SendStream / RecvStream / the SendRequest itself on the second thread between polls or inside the connection's poll; from every state: everything is let go, nothing more arrives, and the connection must still send GOAWAY(NO_ERROR) and complete."
 CLAIMS['C09']['text'] = CLAIMS['C09']['text'].replace("32 states per", "39 states per")
 CLAIMS['C10']['note'] += " The length sweep uses single-symbol strings per Huffman code-length class."
+
+WORK = " The quick tier is bounded by work (explicit depths / per-level execution caps, DESIGN.md 5), so that its coverage does not depend on machine speed; the thorough tier is bounded by time and claims only completed levels."
+for k in CLAIMS:
+    CLAIMS[k]['note'] += WORK
 
 NOT_YET = "check not built yet (work in progress; DESIGN.md section 3 describes the planned harness)"
 NA = {}
